@@ -59,17 +59,36 @@ def make_configs(r, n):
             # out of order: many top-level commands (more than 2 x jobs
             # subsets), a permissive command, widely varying check times
             na = r.choice([14, 18, 24])
-            text = ('(set-logic QF_LIA)\n' +
-                    ''.join(f'(declare-const x{k} Int)\n' for k in range(4)) +
-                    ''.join(f'(assert (> x{k % 4} {k + 100}))\n'
-                            for k in range(na)) + '(check-sat)\n')
-            # every third assert must stay: coarse subsets fail, the fine
-            # (parallel) granularities have many independent successes
-            off = r.randrange(3)
-            keep = [str(100 + k) for k in range(na) if k % 3 == off]
-            spec.clear()
-            spec.update({'mode': 'contains', 'markers': ['check-sat'] + keep,
-                         'delay_ms': r.choice([25, 40]),
+            if i % 8 == 6:
+                # all assertions must stay and hold single-digit constants:
+                # many constant substitutions (7 -> 0) are accepted in the
+                # parallel granularities, and they keep the size of the
+                # input (and of its pickle) unchanged
+                na = 12
+                text = ('(set-logic QF_LIA)\n' +
+                        ''.join(f'(declare-const x{k} Int)\n'
+                                for k in range(4)) +
+                        ''.join(f'(assert (> (+ x{k % 4} {2 + k % 8}) '
+                                f'(* {3 + k % 7} x{(k + 1) % 4})))\n'
+                                for k in range(na)) + '(check-sat)\n')
+                spec.clear()
+                spec.update({'mode': 'count', 'counts': {
+                    '>': na, '+': na, '*': na, 'check-sat': 1}})
+            else:
+                text = ('(set-logic QF_LIA)\n' +
+                        ''.join(f'(declare-const x{k} Int)\n'
+                                for k in range(4)) +
+                        ''.join(f'(assert (> x{k % 4} {k + 100}))\n'
+                                for k in range(na)) + '(check-sat)\n')
+                # every third assert must stay: coarse subsets fail, the
+                # fine (parallel) granularities have many independent
+                # successes
+                off = r.randrange(3)
+                keep = [str(100 + k) for k in range(na) if k % 3 == off]
+                spec.clear()
+                spec.update({'mode': 'contains',
+                             'markers': ['check-sat'] + keep})
+            spec.update({'delay_ms': r.choice([25, 40]),
                          'delay_seed': r.randint(0, 10**6)})
             st = r.choice(['ddmin', 'hybrid'])
             opts[opts.index('--strategy') + 1] = st
